@@ -119,6 +119,7 @@ type frame struct {
 	panicking        bool
 	panic            any
 	phitemps         []value // temporaries for parallel phi assignment
+	curInstr         ssa.Instruction
 }
 
 func (fr *frame) get(key ssa.Value) value {
@@ -607,6 +608,10 @@ func runFrame(fr *frame) {
 			}
 			panic(unsupported(fmt.Sprintf("interpreter runtime error: %v in %s\n%s", p, fr.fn, buf[:n])))
 		}
+		if re, ok := p.(runtimeErr); ok && !strings.Contains(string(re), " [at ") && fr.curInstr != nil {
+			pos := fr.i.prog.Fset.Position(fr.curInstr.Pos())
+			p = runtimeErr(fmt.Sprintf("%s [at %s:%d in %s: %s]", string(re), shortFile(pos.Filename), pos.Line, fr.fn.Name(), fr.curInstr))
+		}
 		fr.panicking = true
 		fr.panic = p
 		if fr.i.mode&EnableTracing != 0 {
@@ -643,6 +648,7 @@ func runFrame(fr *frame) {
 					fmt.Fprintln(os.Stderr, "\t", fr.fn.Name(), instr)
 				}
 			}
+			fr.curInstr = instr
 			if visitInstr(fr, instr) == kReturn {
 				return
 			}
